@@ -241,7 +241,7 @@ def st_shared_history(draw):
     steps = []
     n_bare = draw(st.integers(1, 2))
     for _ in range(draw(st.integers(2, 6))):
-        kind = draw(st.sampled_from(["dec", "dec", "cls", "cls", "redec", "reuse", "adopt", "posthoc"]))
+        kind = draw(st.sampled_from(["dec", "dec", "cls", "cls", "redec", "reuse", "adopt", "posthoc", "partial"]))
         if kind == "dec":
             steps.append(["dec", draw(st.integers(0, n_bare - 1)), draw(st.sampled_from(["require", "ensure"]))])
         elif kind == "redec":
@@ -249,6 +249,10 @@ def st_shared_history(draw):
         elif kind == "posthoc":
             # a contract is put on the overriding method of an EXISTING sub-class: Sub.m = require|ensure(c)(Sub.m)
             steps.append(["posthoc", draw(st.integers(0, 5)), draw(st.sampled_from(["require", "ensure"]))])
+        elif kind == "partial":
+            # a NEW callable derived with functools.partial from an existing wrapper / a root's method gets a contract
+            steps.append(["partial", draw(st.integers(0, 5)), draw(st.sampled_from(["require", "ensure"])),
+                          draw(st.sampled_from(["wrapper", "root"]))])
         elif kind == "adopt":
             # a wrapper made (and already called) earlier becomes the overriding method of a new sub-class
             steps.append(["adopt", draw(st.integers(0, 5)), draw(st.integers(0, 2))])
@@ -305,6 +309,13 @@ def _check_shared_history(ctx, case):
     roots = {}
     base = {}
     wrappers = []
+    derived = {}  # wrapper name -> partial-derived callables that call it (what legitimately changes it changes them)
+
+    def touch_derived(name, cids):
+        for h in derived.get(name, []):
+            own[h] = own[h] | set(cids)
+            base.pop(h, None)
+            expect[h] = None
 
     def probe_all():
         out = {}
@@ -379,6 +390,7 @@ def _check_shared_history(ctx, case):
             base.pop(name, None)
             expect[name] = None
             gspec.pop(name, None)
+            touch_derived(name, {cid})
             feats.add("stacked-on-existing-wrapper")
         elif st_[0] == "posthoc":
             cands = sorted(subs)
@@ -396,6 +408,33 @@ def _check_shared_history(ctx, case):
             expect[sub] = None
             subs.pop(sub)  # one post-hoc decoration per class
             feats.add("contract-added-to-a-method-of-an-existing-sub-class")
+        elif st_[0] == "partial":
+            import functools
+
+            cid = new_cid()
+            role = st_[2]
+            deco = (icontract.require(mk_cond(cid), error=_Viol(cid)) if role == "require" else
+                    icontract.ensure(mk_cond(cid, True), error=_Viol(cid)))
+            if st_[3] == "wrapper":
+                cands = [n for n in wrappers if n in gspec]
+                if not cands:
+                    continue
+                src = cands[st_[1] % len(cands)]
+                part = functools.partial(gspec[src][3], None)
+                derived.setdefault(src, []).append("h%d" % si)
+            else:
+                r = st_[1] % 3
+                if r not in roots:
+                    make_root(r)
+                src = "Root%d" % r
+                part = functools.partial(roots[r][0].m, roots[r][0]())
+            h = deco(part)
+            name = "h%d" % si
+            objs[name] = (lambda h: lambda x: h(x))(h)
+            own[name] = own[src] | {cid}
+            expect[name] = None if expect.get(src) is None else (
+                [cid] + expect[src] if role == "require" else expect[src] + [cid])
+            feats.add("contract-on-a-partial-of-an-existing-callable")
         elif st_[0] == "adopt":
             cands = [n for n in wrappers if n in gspec]
             if not cands:
@@ -416,6 +455,7 @@ def _check_shared_history(ctx, case):
             base.pop(name, None)
             expect[name] = None
             gspec.pop(name, None)
+            touch_derived(name, rc)
             wrappers.remove(name)  # stacking more contracts on it later would (legitimately) change Sub.m as well
             feats.add("called-wrapper-adopted-as-method")
         else:
